@@ -88,10 +88,8 @@ def mutants(seed, only=None):
                 print("mutants: %-55s known gap, not run: %s" % ("seeded/" + os.path.basename(d), m.get("missed_reason", "")[:140]))
                 continue
             cases.append((patch, m.get("caught_by") or [m["property"]], "seeded/" + os.path.basename(d)))
-    missed = 0
-    for patch, props, name in cases:
-        if only and only not in props:
-            continue
+    def one(case):
+        patch, props, name = case
         tmp = tempfile.mkdtemp(prefix="ciwmut.")
         try:
             repo = os.path.join(tmp, "repo")
@@ -103,23 +101,28 @@ def mutants(seed, only=None):
                 shutil.copy(os.path.join(os.environ.get("CIW_REPO", "/repo"), f), dst)
             r = subprocess.run(["patch", "-p1", "-s", "-d", repo, "-i", patch], capture_output=True, text=True)
             if r.returncode != 0:
-                print("mutants: %s does not apply: %s" % (name, r.stdout[-300:] + r.stderr[-300:]))
-                missed += 1
-                continue
-            caught = False
+                print("mutants: %s does not apply: %s" % (name, r.stdout[-300:] + r.stderr[-300:]), flush=True)
+                return 1
             for prop in props:
                 env = dict(os.environ, CIW_REPO=repo, VERIF_OUT=os.path.join(tmp, "out"), VERIF_RUNS=os.environ.get("VERIF_MUTANT_RUNS", "20000"))
                 out = subprocess.run([os.path.join(HERE, "check"), prop, "--tier", "quick"], capture_output=True, text=True, env=env, timeout=1800)
                 if out.returncode == 1 and "VIOLATION property=%s" % prop in out.stdout:
                     first = [l for l in out.stdout.splitlines() if l.startswith("violation ")]
-                    print("mutants: %-55s caught by %s  (%s)" % (name, prop, first[0][:120] if first else ""))
-                    caught = True
-                    break
-            if not caught:
-                print("mutants: %-55s MISSED by %s" % (name, props))
-                missed += 1
+                    print("mutants: %-55s caught by %s  (%s)" % (name, prop, first[0][:120] if first else ""), flush=True)
+                    return 0
+            print("mutants: %-55s MISSED by %s" % (name, props), flush=True)
+            return 1
         finally:
             shutil.rmtree(tmp, ignore_errors=True)
+
+    todo = [c for c in cases if not (only and only not in c[1])]
+    par = int(os.environ.get("VERIF_SELFTEST_PAR", "1"))     # cases run side by side (minimisation and replays are single-threaded)
+    if par > 1:
+        from concurrent.futures import ThreadPoolExecutor
+        with ThreadPoolExecutor(max_workers=par) as ex:
+            missed = sum(ex.map(one, todo))
+    else:
+        missed = sum(one(c) for c in todo)
     print("mutants: %d cases, %d missed" % (len(cases), missed))
     return 1 if missed else 0
 
